@@ -28,6 +28,7 @@ def run(ctx):
     if 'C' in ctx.stages:
         for front in ('v2', 'legacy'):
             fc.stage_c(ctx, front, ctx.pick(300, 4000), 40)
+            fc.stage_c_long(ctx, front, ctx.pick(2, 12))
     dispatcher_check(ctx)
     dispatcher_traces(ctx)
 
